@@ -8,7 +8,9 @@
     entries, CRLF) must not change anything;
 (c) the parser half in Coq (coq/Spec/TokenGrammar.v): random layout trees, parse_tokens (wrap (tokens_of t)) =
     wrap_events (events_of t) evaluated by the extracted model (tests the statement proved in Properties/C03.v on
-    constructors beyond the proved ones as well), and events_of of the Coq spec against events_of of this file."""
+    constructors beyond the proved ones as well), and events_of of the Coq spec against events_of of this file;
+(d) the scanner half in Coq (coq/Spec/FlowText.v): random nodes of the text sub-language of C03_flow_text_tokens /
+    C03_flow_text_events; the real scanner's tokens and the real events against the extracted specification."""
 import json
 import os
 import re
@@ -65,22 +67,44 @@ class Node:
         return "%s%s(%s)" % (p, "fmap" if self.flow else "bmap", ", ".join("%s => %s" % (k.dump(), v.dump()) for k, v in self.items))
 
 
-def tag_ev(tag):
+def split_tag(tag):
+    """(handle, suffix) as the scanner delivers a tag: '!' -> ('', '!'), '!!s' -> ('!!', 's'), '!e!s' -> ('!e!', 's'),
+    '!s' -> ('!', 's')"""
+    if tag == "!":
+        return "", "!"
+    if tag.startswith("!!"):
+        return "!!", tag[2:]
+    j = tag.find("!", 1)
+    if j > 0:
+        return tag[:j + 1], tag[j + 1:]
+    return "!", tag[1:]
+
+
+def tag_ev(tag, table=None):
+    """the resolved tag of an event; table: handle -> prefix declared by %TAG directives ([88]-[93]: a declared handle is
+    replaced by its prefix, '!!' defaults to the YAML prefix, '!' to itself)"""
     if tag is None:
         return "-"
-    if tag == "!":
-        return "h=/s=33"
-    if tag.startswith("!!"):
-        return "h=%s/s=%s" % (cps(YAML_PREFIX), cps(tag[2:]))
-    return "h=33/s=%s" % cps(tag[1:])
+    table = table or {}
+    h, suf = split_tag(tag)
+    if h == "":
+        return "h=%s/s=33" % cps(table.get("", ""))
+    if h == "!!":
+        return "h=%s/s=%s" % (cps(table.get("!!", YAML_PREFIX)), cps(suf))
+    return "h=%s/s=%s" % (cps(table[h] if h in table or len(h) > 1 else "!"), cps(suf))
 
 
-def events_of(docs, explicit):
+def events_of(docs, explicit, tables=None):
     """the event list the stream denotes, in the notation of `hx events` without spans.
     docs: root nodes; explicit[i]: document i starts with '---'.  Anchor ids: 1, 2, ... in order of appearance in the
-    stream; an alias carries the id of the latest anchor of that name in the same document."""
+    stream; an alias carries the id of the latest anchor of that name in the same document.  tables[i]: the %TAG
+    handles in force in document i."""
     out = ["SS"]
     counter = [0]
+    table = [None]
+
+    def tag_ev_(tag):
+        return tag_ev(tag, table[0])
 
     def emit(n, names):
         aid = 0
@@ -89,24 +113,25 @@ def events_of(docs, explicit):
             aid = counter[0]
             names[n.anchor] = aid
         if n.kind == "S":
-            out.append("SC%s,%d,%s,%s" % (n.style, aid, tag_ev(n.tag), cps(n.text)))
+            out.append("SC%s,%d,%s,%s" % (n.style, aid, tag_ev_(n.tag), cps(n.text)))
         elif n.kind == "N":
-            out.append("SCP,%d,%s,%s" % (aid, tag_ev(n.tag), "" if n.props() else "126"))
+            out.append("SCP,%d,%s,%s" % (aid, tag_ev_(n.tag), "" if n.props() else "126"))
         elif n.kind == "A":
             out.append("AL%d" % names[n.text])
         elif n.kind == "Q":
-            out.append("QS%d,%s" % (aid, tag_ev(n.tag)))
+            out.append("QS%d,%s" % (aid, tag_ev_(n.tag)))
             for x in n.items:
                 emit(x, names)
             out.append("QE")
         else:
-            out.append("MS%d,%s" % (aid, tag_ev(n.tag)))
+            out.append("MS%d,%s" % (aid, tag_ev_(n.tag)))
             for k, v in n.items:
                 emit(k, names)
                 emit(v, names)
             out.append("ME")
 
-    for root, ex in zip(docs, explicit):
+    for i, (root, ex) in enumerate(zip(docs, explicit)):
+        table[0] = tables[i] if tables is not None else None
         out.append("DS1" if ex else "DS0")
         emit(root, {})
         out.append("DE")
@@ -145,8 +170,8 @@ def plain_text(rng, inflow):
             s += c
         if s.endswith((" ", ":")) or ": " in s or " #" in s or s.startswith(("---", "...")) or "  " in s and rng.random() < 0.7:
             continue
-        if inflow and (re.search(r":[,\[\]{}]", s) or s.endswith(" -")):
-            continue      # ' -' before a flow indicator: recorded finding (dash-before-flow-indicator-in-plain-scalar)
+        if inflow and re.search(r":[,\[\]{}]", s):
+            continue      # [130] in flow context ':' before a flow indicator is the value indicator, not text
         return s
 
 
@@ -297,21 +322,21 @@ class TreeGen:
 # ------------------------------------------------------------------------------------------------
 class Renderer:
     """Writes a list of root nodes as a YAML stream.  All layout choices come from self.rng.  Text is produced strictly
-    left to right (self.fms depends on it).
-    opts: emptykey='avoid' (main stream: `[ : v ]` only while no '{' / flow '?' was written) | 'force';
-          qmark_empty=False (main stream: never `[ ? ]` / `[ ? : v ]`) | True;  the other options: see __init__."""
+    left to right.
+    opts (used by the dedicated regression stream to force a layout the main stream only chooses at random):
+          emptykey='force': a single pair with a left-out key in a flow sequence is always written `: v`;
+          qmark_empty=True: ... always `? ` / `? : v`;  explicit_pairs=True: single pairs always as `? k : v`;
+          force_zero_root=True: a root block scalar gets content indentation 0 and the next document follows with '---';
+          calm=True: fewer comments / blank lines (also used when shrinking)."""
 
-    def __init__(self, rng, emptykey="avoid", qmark_empty=False, explicit_pairs=False, brace_value_pairs=False,
-                 force_zero_root=False, calm=False):
+    def __init__(self, rng, emptykey="random", qmark_empty=False, explicit_pairs=False, force_zero_root=False, calm=False):
         self.rng = rng
         self.emptykey = emptykey
         self.qmark_empty = qmark_empty
         self.explicit_pairs = explicit_pairs      # single pairs in flow sequences always as '? k : v'
-        self.brace_value_pairs = brace_value_pairs   # dedicated stream: `[ k: {a: b, c: d} ]` allowed
         self.calm = calm          # fewer comments / blank lines (used when shrinking)
-        self.fms = False
         self.zero_root = False    # the current document's root is a block scalar with content at indentation 0
-        self.force_zero_root = force_zero_root   # dedicated stream: '---' may follow such a scalar (recorded finding)
+        self.force_zero_root = force_zero_root
         self.cov = {}
 
     def count(self, k):
@@ -457,7 +482,6 @@ class Renderer:
         """'?' separate [141] ns-flow-map-explicit-entry = implicit entry | (e-node e-node)"""
         rng = self.rng
         ml = c == "flow-in"
-        self.fms = True
         out = "?"
         if k.empty():
             self.count("flow-explicit-empty-key")
@@ -500,22 +524,19 @@ class Renderer:
                 k, v = x.items[0]
                 r = rng.random()
                 # [151] ns-flow-pair = '?' separate explicit-entry | [152] ns-flow-pair-entry (implicit key: one line)
-                if v.kind == "M" and v.items and not self.brace_value_pairs:
-                    pass      # `[ k: {a: b, c: d} ]`: recorded finding (the ',' ends the implicit pair): braces or '?' instead
-                    if r < 0.5 and not k.empty():
-                        self.count("flow-seq-pair-explicit")
-                        return self.flow_pair_explicit(k, v, ind, c)
-                elif k.empty():
-                    if self.qmark_empty:
+                if k.empty():
+                    if self.qmark_empty or (self.emptykey != "force" and r < 0.25):
                         self.count("flow-seq-pair-qmark-empty")
-                        return self.flow_pair_explicit(k, v, ind, c)
-                    if self.emptykey == "force" or (not self.fms and r < 0.6):
+                        return self.flow_pair_explicit(k, v, ind, c)                 # [141] e-node e-node | empty-key entry
+                    if self.emptykey == "force" or r < 0.7:
                         self.count("flow-seq-pair-empty-key")
                         return self.flow_value(k, v, ind, c, False)              # [144] c-ns-flow-map-empty-key-entry
                 elif self.explicit_pairs:
                     return self.flow_pair_explicit(k, v, ind, c)
                 elif r < 0.45:
                     self.count("flow-seq-pair-implicit")
+                    if v.kind == "M" and v.flow and v.items:
+                        self.count("flow-seq-pair-implicit-with-flow-mapping-value")
                     ks = self.flow_node(k, 0, "flow-key")                         # [154] ns-s-implicit-yaml-key(flow-key)
                     return ks + self.flow_value(k, v, ind, c, True)
                 elif r < 0.7:
@@ -544,7 +565,6 @@ class Renderer:
                 return ks                                                         # [143]/[145] ... | e-node
             return ks + self.flow_value(k, v, ind, c, True)
 
-        self.fms = True
         return self.flow_entries(entry, len(n.items), ind, c, "{", "}")
 
     # ---- block nodes ----
@@ -710,7 +730,9 @@ class Renderer:
             explicit.append(start)
             closed = rng.random() < 0.3
             if self.zero_root and i + 1 < len(docs):
-                closed = not self.force_zero_root      # '---' after a zero-indented root block scalar: recorded finding, '...' works
+                self.count("doc-after-zero-indented-root-block-scalar-" + ("end-marker" if closed and not self.force_zero_root else "start-marker"))
+                if self.force_zero_root:
+                    closed = False      # the next document follows with '---' ([206] c-forbidden ends the scalar)
             self.zero_root = False
             if closed:
                 self.count("doc-end-marker")
@@ -726,15 +748,14 @@ def render(docs, seed, **opts):
 
 
 # ------------------------------------------------------------------------------------------------
-# known findings: predicates on the text
+# the classes of the REPAIRED findings (known_findings_c03.jsonl, status "fixed"): predicates on the text.
+# They suppress nothing; they are used to count how many inputs of each formerly failing class every run exercises
+# (coverage.generated.repaired_class_inputs), so that a regression of one of the repairs is a VIOLATION with its input.
 # ------------------------------------------------------------------------------------------------
-KNOWN_EMPTYKEY_RE = re.compile(r"\{[\s\S]*[\[,]\s*:[\s\],]")
-
-
 def flow_marks(text):
     """Walks over the text keeping the stack of open flow collections (quoted scalars and comments skipped) and the two
-    scanner flags the recorded findings hinge on (flow_mapping_started; per open flow sequence: inside an implicit single
-    pair).  Returns the marks, in text order:
+    flags of the scanner BEFORE /repo ad74b3e that the repaired findings hinged on (a sticky flow_mapping_started; per open
+    flow sequence: inside an implicit single pair).  Returns the marks, in text order:
       'emptykey{' / 'emptykey?'  an entry of a flow SEQUENCE starts with ':' while flow_mapping_started is set (last set
                                  by a '{' / by a '?' in flow context)
       'qempty'                   an entry of a flow SEQUENCE is '?' followed by ':' ',' or ']'
@@ -857,13 +878,13 @@ def flow_marks(text):
     return marks
 
 
-def known_classes(text):
-    """the classes of recorded findings the text belongs to (decidable predicates on the input text)"""
+def repaired_classes(text):
+    """the classes of repaired findings the text belongs to (decidable predicates on the input text)"""
     m = flow_marks(text)
     out = []
     if "qempty" in m:
         out.append("explicit-key-indicator-without-key-in-flow-sequence")
-    if "emptykey{" in m:      # (KNOWN_EMPTYKEY_RE is the same predicate without comments between '[' / ',' and ':')
+    if "emptykey{" in m:
         out.append("empty-key-flow-pair-after-flow-mapping")
     if "emptykey?" in m:
         out.append("empty-key-flow-pair-after-flow-explicit-key")
@@ -874,6 +895,15 @@ def known_classes(text):
     if "dash" in m:
         out.append("dash-before-flow-indicator-in-plain-scalar")
     return out
+
+
+# class -> predicate on the input text, for classes recorded with status "known" (none at present: every class
+# recorded for C03 has been repaired in /repo).  Only a class listed here AND recorded as known can excuse a failure.
+KNOWN_PREDICATES = {}
+
+
+def known_classes(text):
+    return [c for c, pred in KNOWN_PREDICATES.items() if pred(text)]
 
 
 def zero_indent_root_scalar_before_doc_start(text):
@@ -902,7 +932,8 @@ def zero_indent_root_scalar_before_doc_start(text):
 
 
 def load_known():
-    """class -> description: the shared entry for C03 plus known_findings_c03.jsonl"""
+    """class -> description of the entries with status "known" (the shared file plus known_findings_c03.jsonl);
+    entries with status "fixed" suppress nothing"""
     out = {}
     for d in core.known_findings(PID):
         out[d["class"]] = d["what"]
@@ -918,14 +949,14 @@ def load_known():
 
 
 # ------------------------------------------------------------------------------------------------
-# the dedicated stream of known-finding inputs
+# the dedicated stream of regression inputs: small streams built around the repaired classes (they must all pass)
 # ------------------------------------------------------------------------------------------------
 def sc(text, style="P"):
     return Node("S", style=style, text=text)
 
 
-def known_stream(rng, count):
-    """small streams built around the recorded classes: (docs, render options)"""
+def regression_stream(rng, count):
+    """small streams built around the repaired classes: (docs, render options)"""
     out = []
     null = lambda: Node("N")
     fmap = lambda items: Node("M", flow=True, items=items)
@@ -957,7 +988,7 @@ def known_stream(rng, count):
         if kind == "bracecomma":
             inner = fmap([(sc("a"), sc("b")), (sc("c"), rng.choice([sc("d"), null()]))][:rng.choice([1, 2, 2])])
             pair = fmap([(rng.choice([sc("k"), sc("k", "D"), null()]), inner)])
-            out.append(([embed(fseq(others[:pos] + [pair] + others[pos:]))], dict(brace_value_pairs=True, emptykey="force")))
+            out.append(([embed(fseq(others[:pos] + [pair] + others[pos:]))], dict(emptykey="force")))
             continue
         pair = fmap([(null(), v)])
         seq = fseq(others[:pos] + [pair] + others[pos:])
@@ -977,6 +1008,30 @@ def known_stream(rng, count):
             docs = [Node("Q", flow=False, items=[first, seq])]
         out.append((docs, dict(emptykey="force", explicit_pairs=(kind == "qmark"))))
     return out
+
+
+def regression_witnesses():
+    """the witness inputs recorded with the repaired findings, with the trees they denote: (text, docs, explicit flags)"""
+    null = lambda: Node("N")
+    fmap = lambda items: Node("M", flow=True, items=items)
+    fseq = lambda items: Node("Q", flow=True, items=items)
+    return [
+        ("[ ? ]\n", [fseq([fmap([(null(), null())])])], [False]),
+        ("[ ? : x ]\n", [fseq([fmap([(null(), sc("x"))])])], [False]),
+        ("[ ? , ? : x , ]\n", [fseq([fmap([(null(), null())]), fmap([(null(), sc("x"))])])], [False]),
+        ("[ ? a : b, : c ]\n", [fseq([fmap([(sc("a"), sc("b"))]), fmap([(null(), sc("c"))])])], [False]),
+        ("[ ? a ]\n---\n[ : c ]\n", [fseq([fmap([(sc("a"), null())])]), fseq([fmap([(null(), sc("c"))])])], [False, True]),
+        ("[ {x}, : y ]\n", [fseq([fmap([(sc("x"), null())]), fmap([(null(), sc("y"))])])], [False]),
+        ("{x}\n---\n[ : y ]\n", [fmap([(sc("x"), null())]), fseq([fmap([(null(), sc("y"))])])], [False, True]),
+        ("[ k: {a: b, c: d} ]\n", [fseq([fmap([(sc("k"), fmap([(sc("a"), sc("b")), (sc("c"), sc("d"))]))])])], [False]),
+        ("[ k: {a: b,} ]\n", [fseq([fmap([(sc("k"), fmap([(sc("a"), sc("b"))]))])])], [False]),
+        ("[ k: [ {a: b, c: d}, e ], f ]\n",
+         [fseq([fmap([(sc("k"), fseq([fmap([(sc("a"), sc("b")), (sc("c"), sc("d"))]), sc("e")]))]), sc("f")])], [False]),
+        ("--- |\nab\n---\nc\n", [Node("S", style="L", text="ab\n"), sc("c")], [True, True]),
+        ("--- >-\nab\n--- c\n", [Node("S", style="F", text="ab"), sc("c")], [True, True]),
+        ("[a -, b]\n", [fseq([sc("a -"), sc("b")])], [False]),
+        ("{a -: b -}\n", [fmap([(sc("a -"), sc("b -"))])], [False]),
+    ]
 
 
 # ------------------------------------------------------------------------------------------------
@@ -1127,12 +1182,8 @@ def lt_props(n):
     a = cps(n.anchor) if n.anchor is not None else "-"
     if n.tag is None:
         t = "-"
-    elif n.tag == "!":
-        t = ",33"
-    elif n.tag.startswith("!!"):
-        t = "33.33," + cps(n.tag[2:])
     else:
-        t = "33," + cps(n.tag[1:])
+        t = "%s,%s" % tuple(cps(x) for x in split_tag(n.tag))
     return "%s/%s/%d" % (a, t, 1 if n.tag_first else 0)
 
 
@@ -1150,8 +1201,8 @@ def lt_of(n, rng, block):
         if n.flow or not block:
             ents = []
             for x in n.items:
-                if x.kind == "M" and not x.props() and len(x.items) == 1 and not x.items[0][0].empty() and rng.random() < 0.5:
-                    k, v = x.items[0]
+                if x.kind == "M" and not x.props() and len(x.items) == 1 and rng.random() < 0.5:
+                    k, v = x.items[0]       # an unwrapped single pair; the key may be left out (`[ ? ]`, `[ ? : x ]`)
                     vt = 1 if (not v.empty() or rng.random() < 0.5) else 0
                     ents.append("p %s %d %s" % (lt_of(k, rng, False), vt, lt_of(v, rng, False)))
                 else:
@@ -1188,6 +1239,136 @@ def lt_of(n, rng, block):
         trail = 1 if (n.items and rng.random() < 0.2) else 0
         return "FM %s %d %d %s" % (lt_props(n), trail, len(ents), " ".join(ents))
     return "BM %s %d %s" % (lt_props(n), len(ents), " ".join(ents))
+
+
+DECLARABLE = [("!e!", "tag:e.org,2026:"), ("!m-1!", "x"), ("!", "!local-"), ("!!", "tag:other.org/")]
+
+
+def lt_stream(ltg, lrng):
+    """a well-formed stream for the Coq stream grammar (docs_wf): documents with %YAML / %TAG directives, '---' where
+    needed or at random, 0-3 '...' tokens, tags with declared named handles.  Returns (case line of the driver's mode
+    `stream`, expected events computed here)."""
+    keep = lrng.random() < 0.3
+    ndocs = lrng.choice([0, 1, 1, 2, 2, 3, 4])
+    parts, roots, explicit, tables = [], [], [], []
+    closed = True
+    prev = {}
+    for _ in range(ndocs):
+        root = ltg.node(0 if lrng.random() < 0.8 else ltg.max_depth, False, [])
+        dirs = []
+        if closed and lrng.random() < 0.4:
+            if lrng.random() < 0.5:
+                dirs.append(("V", 1, lrng.choice([1, 2, 3])))
+            for h, pre in lrng.sample(DECLARABLE, lrng.choice([0, 1, 1, 2, 4])):
+                dirs.insert(lrng.randrange(0, len(dirs) + 1), ("T", h, pre))
+        table = dict(prev) if keep else {}
+        table.update({d[1]: d[2] for d in dirs if d[0] == "T"})
+        named = [h for h in table if len(h) > 2]
+
+        def retag(n):
+            if n.tag is not None and n.kind != "A" and named and lrng.random() < 0.6:
+                n.tag = lrng.choice(named) + lrng.choice(["x", "str", "a-b"])
+            for c in n.children():
+                retag(c)
+        retag(root)
+        start = bool(dirs) or not closed or root.empty() or lrng.random() < 0.4
+        ends = lrng.choice([0, 0, 1, 1, 2, 3])
+        ds = " ".join("V %d %d" % (d[1], d[2]) if d[0] == "V" else "T %s %s" % (cps(d[1]), cps(d[2])) for d in dirs)
+        parts.append("%d %s %d %d %s" % (len(dirs), ds, 1 if start else 0, ends, lt_of(root, lrng, True)))
+        roots.append(root)
+        explicit.append(start)
+        tables.append(table)
+        prev = table
+        closed = ends > 0
+    return "%d %d %s" % (1 if keep else 0, ndocs, " ".join(parts)), ";".join(events_of(roots, explicit, tables))
+
+
+# ------------------------------------------------------------------------------------------------
+# (d) the text sub-language of coq/Spec/FlowText.v (the class of C03_flow_text_tokens / C03_flow_text_events)
+# ------------------------------------------------------------------------------------------------
+FW_CHARS = "abcxyzKV0179_~.=/\\$^()+;<\u00e9\u4e2d\U0001f600"
+FW_RARE = "\u00a0\u2028\x85\ufeff\x7f\x01"      # no blank, break, NUL, indicator: ordinary word characters for the scanner
+
+
+class FNode:
+    """kind 'W' (text), 'S' (items: (key text | None, FNode)), 'M' (items: (key text, FNode))"""
+    __slots__ = ("kind", "text", "items")
+
+    def __init__(self, kind, text=None, items=None):
+        self.kind, self.text, self.items = kind, text, items
+
+
+def fw_word(rng, long_words):
+    n = rng.choice([1, 1, 1, 2, 3, 5, 9])
+    if long_words and rng.random() < 0.02:
+        n = rng.choice([126, 127, 128, 129, 254, 255, 300])      # around the chunk size of the plain-scalar loop
+    return "".join(rng.choice(FW_RARE) if rng.random() < 0.03 else rng.choice(FW_CHARS) for _ in range(n))
+
+
+def fw_node(rng, depth, max_depth, long_words=True):
+    if depth >= max_depth or rng.random() < 0.4:
+        return FNode("W", text=fw_word(rng, long_words))
+    n = rng.choice([0, 1, 1, 2, 2, 3, 5])
+    if rng.random() < 0.55:
+        items = []
+        for _ in range(n):
+            k = fw_word(rng, long_words) if rng.random() < 0.35 else None
+            items.append((k, fw_node(rng, depth + 1, max_depth, long_words)))
+        return FNode("S", items=items)
+    return FNode("M", items=[(fw_word(rng, long_words), fw_node(rng, depth + 1, max_depth, long_words)) for _ in range(n)])
+
+
+def fw_coll(rng, max_depth, long_words=True):
+    while True:
+        f = fw_node(rng, 0, max_depth, long_words)
+        if f.kind != "W":
+            return f
+
+
+def fw_chain(rng, depth):
+    """a chain of nested collections of the given depth (the flow-level limit is 255)"""
+    f = FNode("W", text="x")
+    for _ in range(depth):
+        r = rng.random()
+        if r < 0.4:
+            f = FNode("S", items=[(None, f)])
+        elif r < 0.7:
+            f = FNode("S", items=[("k", f)])
+        else:
+            f = FNode("M", items=[("k", f)])
+    return f
+
+
+def fw_render(f):
+    """the text, written independently of coq/Spec/FlowText.v: [137]/[140] with ns-flow-pair entries, one layout"""
+    if f.kind == "W":
+        return f.text
+    if f.kind == "S":
+        return "[" + ", ".join((k + ": " if k is not None else "") + fw_render(v) for k, v in f.items) + "]"
+    return "{" + ", ".join(k + ": " + fw_render(v) for k, v in f.items) + "}"
+
+
+def fw_case(f):
+    if f.kind == "W":
+        return "W " + cps(f.text)
+    if f.kind == "S":
+        return "S %d %s" % (len(f.items), " ".join(("p %s %s" % (cps(k), fw_case(v))) if k is not None else "n " + fw_case(v)
+                                                       for k, v in f.items))
+    return "M %d %s" % (len(f.items), " ".join("%s %s" % (cps(k), fw_case(v)) for k, v in f.items))
+
+
+def fw_tree(f):
+    """the abstract node the text denotes (for events_of)"""
+    if f.kind == "W":
+        return sc(f.text)
+    if f.kind == "S":
+        return Node("Q", flow=True, items=[Node("M", flow=True, items=[(sc(k), fw_tree(v))]) if k is not None else fw_tree(v)
+                                              for k, v in f.items])
+    return Node("M", flow=True, items=[(sc(k), fw_tree(v)) for k, v in f.items])
+
+
+def fw_depth(f):
+    return 0 if f.kind == "W" else 1 + max([fw_depth(v) for _, v in f.items] + [0])
 
 
 # ------------------------------------------------------------------------------------------------
@@ -1294,7 +1475,7 @@ def check_C03(tier, seed):
     if res.harness_ok and res.model_ok:
         # ---------------- (a) generated streams ----------------
         n_main = 24000 if quick else 300000
-        n_known = 400 if quick else 4000
+        n_regr = 600 if quick else 6000
         cases = []           # (docs, opts, layout seed, text, explicit, expected, stream label)
         tg = TreeGen(rng, cov=cov_tree)
         seen = set()
@@ -1310,7 +1491,7 @@ def check_C03(tier, seed):
                 continue
             seen.add(text)
             cases.append((docs, opts, ls, text, explicit, events_of(docs, explicit), "main"))
-        for docs, opts in known_stream(rng, n_known):
+        for docs, opts in regression_stream(rng, n_regr):
             ls = rng.randrange(1 << 30)
             opts = dict(opts, calm=True)
             r = Renderer(random.Random(ls), **opts)
@@ -1318,21 +1499,26 @@ def check_C03(tier, seed):
             if text in seen:
                 continue
             seen.add(text)
-            cases.append((docs, opts, ls, text, explicit, events_of(docs, explicit), "known"))
+            cases.append((docs, opts, ls, text, explicit, events_of(docs, explicit), "regression"))
+        # the recorded witnesses of the repaired findings, verbatim
+        for wtext, wdocs, wexpl in regression_witnesses():
+            if wtext not in seen:
+                seen.add(wtext)
+                cases.append((wdocs, None, 0, wtext, wexpl, events_of(wdocs, wexpl), "witness"))
         lines = [enc(c[3]) for c in cases]
         impl = {b: run_hx(["events", b], lines) for b in ("str", "iter")}
         model = run_mx(["events", "str"], lines)
         n_ok = 0
         sizes = {}
-        main_known_pattern = 0
+        repaired_seen = {}       # repaired class -> [inputs of the main stream, inputs of the regression streams] matching it
         first_bad = {}
         for i, (docs, opts, ls, text, explicit, exp, label) in enumerate(cases):
             res.evaluations += 1
             b = "1-40" if len(text) <= 40 else "41-120" if len(text) <= 120 else "121-400" if len(text) <= 400 else "400+"
             sizes[b] = sizes.get(b, 0) + 1
             cls = known_classes(text)
-            if label == "main" and cls:
-                main_known_pattern += 1
+            for rc in repaired_classes(text):
+                repaired_seen.setdefault(rc, [0, 0])[0 if label == "main" else 1] += 1
             bad = None
             for bk in ("str", "iter"):
                 g, fin = strip_line(impl[bk][i])
@@ -1365,7 +1551,7 @@ def check_C03(tier, seed):
                     return False
                 c = known_classes(t)
                 return not (c and c[0] in known) and fin.split("#")[-1][:40] == want_msg
-            sdocs, sseed = shrink(docs, opts, ls, is_bad)
+            sdocs, sseed = shrink(docs, opts, ls, is_bad) if opts is not None else (docs, ls)
             if sdocs is not docs:
                 stext, sexp_l, _ = render(sdocs, sseed, **opts)
                 sg, sfin = strip_line(run_hx(["events", "str"], [enc(stext)])[0])
@@ -1379,8 +1565,9 @@ def check_C03(tier, seed):
                               got=";".join(bad[1])[-900:] + "|" + bad[2], expected=";".join(exp)[-900:], shrunk=small,
                               same_symptom_elsewhere=sum(1 for k in first_bad if k == key))
         res.coverage["generated"] = dict(streams=len(cases), main=sum(1 for c in cases if c[6] == "main"),
-                                         known_stream=sum(1 for c in cases if c[6] == "known"), agree_with_tree=n_ok,
-                                         main_stream_inputs_matching_a_known_predicate=main_known_pattern,
+                                         regression_stream=sum(1 for c in cases if c[6] == "regression"),
+                                         witnesses=sum(1 for c in cases if c[6] == "witness"), agree_with_tree=n_ok,
+                                         repaired_class_inputs={k: dict(main=v[0], regression=v[1]) for k, v in sorted(repaired_seen.items())},
                                          sizes=sizes, constructs=dict(sorted(cov_tree.items())),
                                          layout_choices=dict(sorted(cov_layout.items())))
         res.coverage["traces_validated_against_impl"] = len(cases)
@@ -1465,12 +1652,101 @@ def check_C03(tier, seed):
             else:
                 lt_ok += 1
         res.coverage["token_grammar_trees"] = dict(trees=len(lt_lines), agree=lt_ok)
+        # whole streams: stream_toks / stream_events / docs_wf / docs_bound (C03_stream)
+        n_ls = 6000 if quick else 100000
+        ls_lines, ls_exp = [], []
+        for _ in range(n_ls):
+            l, e = lt_stream(ltg, lrng)
+            ls_lines.append(l)
+            ls_exp.append(e)
+        ls_out = run_mx(["stream"], ls_lines, tag="C03")
+        ls_ok = 0
+        for l, e, o in zip(ls_lines, ls_exp, ls_out):
+            res.evaluations += 1
+            parts = o.split("|")
+            head = parts[0].split(" ")
+            if len(head) != 5 or head[:3] != ["1", "1", "1"]:
+                res.add_tie_break("token grammar (streams): parse_tokens (stream_toks ds) <> stream_events ds, or a generated stream is "
+                                  "not well-formed (docs_wf, docs_bound, agree = %s)" % " ".join(head[:3]), case=l, out=o[-600:])
+            elif parts[1] != e:
+                res.add_tie_break("token grammar (streams): stream_events of the Coq specification differs from the events computed by "
+                                  "the check", case=l, coq=parts[1][-400:], check=e[-400:])
+            else:
+                ls_ok += 1
+        res.coverage["token_grammar_streams"] = dict(streams=len(ls_lines), agree=ls_ok)
+        # ---------------- (d) the text sub-language of the scanner theorems, on the implementation ----------------
+        n_fw = 6000 if quick else 100000
+        frng = gen.rng_for(seed, PID + "-flowtext")
+        fws = []
+        for i in range(n_fw):
+            fws.append(fw_coll(frng, frng.choice([1, 2, 3, 4, 6])))
+        for d in ([1, 2, 3, 100, 254, 255] if quick else list(range(1, 256))):
+            fws.append(fw_chain(frng, d))
+        for _ in range(20 if quick else 200):            # lines longer than the simple-key limit (1024)
+            fws.append(FNode("S", items=[(None, fw_coll(frng, 3, False)) for _ in range(frng.choice([40, 80, 160]))]))
+        fw_lines = [fw_case(f) for f in fws]
+        fw_text = [fw_render(f) + "\n" for f in fws]
+        fw_spec = run_mx(["flow"], fw_lines, tag="C03")
+        fw_enc = [enc(t) for t in fw_text]
+        fw_impl_t = run_hx(["tokens"], fw_enc)
+        fw_impl = {b: run_hx(["events", b], fw_enc) for b in ("str", "iter")}
+        fw_model = run_mx(["events", "str"], fw_enc)
+        fw_ok = 0
+        deepest = longest = 0
+        for j, (f, case, text, spec, it, code) in enumerate(zip(fws, fw_lines, fw_text, fw_spec, fw_impl_t, fw_enc)):
+            res.evaluations += 1
+            parts = spec.split("|")
+            head = parts[0].split(" ")
+            if len(parts) != 4 or head[:2] != ["1", "1"] or int(head[2]) != fw_depth(f) or fw_depth(f) > 255:
+                res.add_tie_break("flow text: a generated node is outside the class of the theorem (fwf, is_coll, depth = %s)" % parts[0],
+                                  case=case[:300], out=spec[-300:])
+                continue
+            if parts[1] != code:
+                res.add_tie_break("flow text: render of coq/Spec/FlowText.v differs from the text written by the check", case=case[:300],
+                                  coq=parts[1][-300:], check=code[-300:])
+                continue
+            exp_ev = events_of([fw_tree(f)], [False])
+            if parts[3] != ";".join(exp_ev):
+                res.add_tie_break("flow text: events_of (lt f) of the Coq specification differs from the events computed by the check",
+                                  case=case[:300], coq=parts[3][-300:], check=";".join(exp_ev)[-300:])
+                continue
+            deepest, longest = max(deepest, fw_depth(f)), max(longest, len(text))
+            good = True
+            toks, tfin = split_line(it)
+            got_t = ";".join(ev_nospan(t) for t in toks)
+            if tfin != "END" or got_t != parts[2]:
+                good = False
+                res.add_violation("flow text (class of C03_flow_text_tokens): the scanner's tokens are not the tokens of the layout tree "
+                                  "the text denotes", dict(input=text[:2000], codepoints=code, case=case[:600]),
+                                  got=got_t[-600:] + "|" + tfin, expected=parts[2][-600:])
+            for bk in ("str", "iter"):
+                g, fin = strip_line(fw_impl[bk][j])
+                if fin != "OK" or g != exp_ev:
+                    good = False
+                    res.add_violation("flow text (class of C03_flow_text_events): the events of back-end %s are not the events of the "
+                                      "tree the text denotes" % bk, dict(input=text[:2000], codepoints=code, case=case[:600], backend=bk),
+                                      got=";".join(g)[-600:] + "|" + fin, expected=";".join(exp_ev)[-600:])
+                    break
+            me, mf = strip_line(fw_model[j])
+            if mf != "OK" or me != exp_ev:
+                res.add_tie_break("flow text: the model pipeline contradicts C03_flow_text_events (extraction or driver out of step)",
+                                  case=text[:300], model=";".join(me)[-300:] + "|" + mf)
+            if good:
+                fw_ok += 1
+                if len(exp_ev) >= 9:
+                    res.nontrivial.add(text)
+        res.coverage["flow_text"] = dict(nodes=len(fws), tokens_and_events_agree=fw_ok, deepest=deepest, longest_text=longest)
     res.known += sorted(kf)
     rule = ("(a) random abstract node trees (scalars in 5 styles, aliases, block/flow sequences and mappings, left-out nodes, anchors, "
             "tags, complex keys, 1-3 documents) rendered by a renderer written from the YAML 1.2.2 productions under random layout "
             "choices (coverage.generated.layout_choices counts each choice made); expected events computed from the tree; both input "
-            "back-ends and the Coq model pipeline; a small dedicated stream around the recorded finding classes; (b) yaml-test-suite "
+            "back-ends and the Coq model pipeline; a dedicated regression stream around the classes of the repaired findings and their "
+            "recorded witnesses (all must pass; coverage.generated.repaired_class_inputs); (b) yaml-test-suite "
             "non-error cases against the recorded tree + trailing-comment / blank-line / CRLF variants, error cases must be rejected; "
-            "(c) random layout trees through the extracted tokens_of / events_of / parse_tokens; non-trivial = distinct input texts "
+            "(c) random layout trees (and random streams of documents with directives) through the extracted tokens_of / events_of / "
+            "stream_toks / stream_events / parse_tokens; (d) random nodes of the text sub-language of the scanner theorems "
+            "(coq/Spec/FlowText.v; also nesting up to the flow-level limit, words around the 127-character chunk of the plain-scalar "
+            "loop, lines longer than the simple-key limit): the implementation's tokens (hx tokens) and events must be the extracted "
+            "tokens_of (lt f) / events_of (lt f), the text must be the extracted render; non-trivial = distinct input texts "
             "whose event list has >= 9 events and which agreed with the expectation")
     return res.finish(proof, rule)
